@@ -198,12 +198,12 @@ def shards(tier, seed):
         specs.append({"kind": "enum_single", "maxw": maxw, "part": i, "parts": NSHARDS})
     for i in range(NSHARDS):
         specs.append({"kind": "enum_reflected", "maxw": 2 if tier == "quick" else 3, "part": i, "parts": NSHARDS})
-    d2_stride = 40 if tier == "quick" else 4
+    d2_stride = 40 if tier == "quick" else 2
     for i in range(NSHARDS):
         specs.append({"kind": "enum_depth2", "maxw": 2, "stride": d2_stride * NSHARDS,
                       "offset": (seed % d2_stride) * NSHARDS + i if tier == "quick" else i,
                       "full_stride": d2_stride})
-    ntrees = 3000 if tier == "quick" else 40000
+    ntrees = 3000 if tier == "quick" else 200000
     for i in range(NSHARDS):
         specs.append({"kind": "sample", "seed": seed, "shard": i, "trees": ntrees // NSHARDS,
                       "depth": 4 if tier == "quick" else 6, "leafw": 8 if tier == "quick" else 16,
